@@ -117,6 +117,7 @@ fn role_of(s: &str) -> Option<Role> {
         "kad" => Some(Role::Kad),
         "silent" => Some(Role::Silent),
         "silentput" => Some(Role::SilentPut),
+        "dieonreq" => Some(Role::DieOnReq),
         "nokad" => Some(Role::NoKad),
         _ => None,
     }
@@ -455,7 +456,7 @@ async fn run_scenario(sc: Scenario, fault: String) -> Result<Outcome, String> {
             let ok = snap.iter().any(|e| e["k"] == "term" && e["node"] == *n && e["q"] == *q && e["ok"] == true);
             let hexk = hex::encode(key);
             let got: HashSet<u64> = snap.iter().filter(|e| e["k"] == "recv" && e["key"] == hexk.as_str()).map(|e| e["node"].as_u64().unwrap()).collect();
-            let maybe = (1..slots.len()).filter(|&j| matches!(spec(j).drop.as_str(), "conn" | "recv") && !got.contains(&(j as u64))).count();
+            let maybe = (1..slots.len()).filter(|&j| (matches!(spec(j).drop.as_str(), "conn" | "recv") || spec(j).role == "dieonreq") && !got.contains(&(j as u64))).count();
             ok && got.len() + maybe < need_recv(op)
         });
         if short {
@@ -556,7 +557,7 @@ async fn run_scenario(sc: Scenario, fault: String) -> Result<Outcome, String> {
         }
         let q = qid(*n, *q);
         for j in 1..slots.len() {
-            if matches!(spec(j).drop.as_str(), "conn" | "recv") && !recvd.get(&q).map(|s| s.contains(&(j as u64))).unwrap_or(false) {
+            if (matches!(spec(j).drop.as_str(), "conn" | "recv") || spec(j).role == "dieonreq") && !recvd.get(&q).map(|s| s.contains(&(j as u64))).unwrap_or(false) {
                 trace.push(json!({"e": "maybe", "q": q, "at": j}).to_string());
             }
         }
